@@ -120,8 +120,10 @@ def generate(verif, repo, bdir):
         objs = []
         if b.get("shadow"):
             sroot = "shadow/%s" % name
-            first.append(os.path.join(bdir, sroot))
-            first.append(os.path.join(bdir, sroot, "shadow_src"))
+            # relative (ninja runs in the build dir): the depfile then names the generated headers
+            # exactly as the shadow edges do, so an edit to a shadowed source rebuilds in ONE pass
+            first.append(sroot)
+            first.append(os.path.join(sroot, "shadow_src"))
             for rel in b["shadow"]:
                 dst = os.path.join(sroot, shadow_dest(rel))
                 w("build %s: shadow %s | %s/sched/rename.sed" % (esc(dst), esc(os.path.join(repo, rel)), verif))
